@@ -88,6 +88,7 @@ func init() {
 		in.addInput(name, "string", t)
 		return t
 	}
+	intrinsics["vIDString"] = intrinsics["vString"]
 	intrinsics["vAssume"] = func(in *Interp, fn *ssa.Function, a []Value) Value {
 		in.Assume(a[0].(*smt.Term))
 		return nil
@@ -125,7 +126,7 @@ func init() {
 		c := a[1].(*smt.Term)
 		in.X.mu.Lock()
 		in.X.ReachWanted[label] = true
-		_, have := in.X.Reached[label]
+		have := len(in.X.ReachedAll[label]) >= 4
 		in.X.mu.Unlock()
 		if have || (c.Const && !c.B) {
 			return nil
@@ -137,6 +138,9 @@ func init() {
 			in.X.mu.Lock()
 			if _, have := in.X.Reached[label]; !have {
 				in.X.Reached[label] = w
+			}
+			if len(in.X.ReachedAll[label]) < 4 {
+				in.X.ReachedAll[label] = append(in.X.ReachedAll[label], w)
 			}
 			in.X.mu.Unlock()
 		}
@@ -161,6 +165,7 @@ func init() {
 	}
 	intrinsics["vIteI"] = intrinsics["vIteS"]
 	intrinsics["vIteB"] = intrinsics["vIteS"]
+	intrinsics["vDebugErr"] = func(in *Interp, fn *ssa.Function, a []Value) Value { return nil }
 	intrinsics["vNote"] = func(in *Interp, fn *ssa.Function, a []Value) Value {
 		in.Notes = append(in.Notes, constStr(in, a[0], "vNote"))
 		return nil
